@@ -431,3 +431,36 @@ def run(index, rep, tier):
                         nt += 1
                         rep.ob("R15.9", fn_where(f, t.stmt), "%s: `%s`" % (f.qualname, norm(t.ast)), True)
         rep.floor("R15.9", "presence tests of filter_fn", 8, nt)
+
+    # ---- R15.10 a traversal that picks children by position knows how many there are
+    with rep.section("R15.10"):
+        rep.rule("R15.10", "a traversal that picks children by position has established the exact number of children: in every iterator of Node / Tree a constant subscript of `_child_nodes` is reachable only through the true branch of a test `len(<node>._child_nodes) == N` with N greater than the index - otherwise children beyond the ones named are silently left out of the walk")
+        n10 = 0
+        for cq in (NODE, TREE):
+            for fi in index.methods_of(cq):
+                if not (fi.name.endswith("_iter") or fi.name in ("apply", "__iter__")):
+                    continue
+                g = cfg_of(fi)
+                for n in g.nodes:
+                    for e in node_exprs(n) + ([n.ast] if n.kind == "forinit" else []):
+                        if e is None:
+                            continue
+                        for sub in ast.walk(e):
+                            if not (isinstance(sub, ast.Subscript) and isinstance(sub.value, ast.Attribute) and sub.value.attr == "_child_nodes" and isinstance(sub.slice, ast.Constant) and isinstance(sub.slice.value, int) and sub.slice.value >= 0):
+                                continue
+                            n10 += 1
+                            base = norm(sub.value)
+                            k = sub.slice.value
+
+                            def edge_ok(s, l, d, base=base, k=k):
+                                if s.kind == "test" and l == "t" and isinstance(s.ast, ast.Compare) and len(s.ast.ops) == 1 and isinstance(s.ast.ops[0], ast.Eq):
+                                    a, b = s.ast.left, s.ast.comparators[0]
+                                    for x, y in ((a, b), (b, a)):
+                                        if isinstance(y, ast.Constant) and isinstance(y.value, int) and y.value > k and norm(x) == "len(%s)" % base:
+                                            return False
+                                return True
+                            seen = g.reach([g.entry], follow_exc=False, edge_ok=edge_ok)
+                            rep.check(n not in seen, "R15.10", fi.qualname, "`%s[%d]` without an exact child count" % (base, k), fn_where(fi, sub),
+                                      "%s: `%s[%d]` only under len(%s) == N" % (fi.name, base, k, base),
+                                      "%s reads `%s[%d]` on a path that has not established `len(%s) == N`: a node with more children than the walk names has the others left out without an error (the in-order walk is defined for binary nodes only and refuses anything else)" % (fi.qualname, base, k, base))
+        rep.floor("R15.10", "positional child reads in iterators", 2, n10)
